@@ -429,7 +429,7 @@ class Explorer(object):
             c = self.port.module_consts(self.modname).get(e.id, NOT_HANDLED) if hasattr(self.port, 'module_consts') else NOT_HANDLED
             if c is not NOT_HANDLED:
                 return c
-            if e.id in ('len', 'iter', 'str', 'int', 'bool', 'list', 'tuple', 'isinstance', 'range', 'enumerate', 'min', 'max', 'any', 'all', 'type', 'set', 'Set', 'sorted', 'sum', 'Map', 'dict', 'Array', '__regex__', 'reversed', 'Boolean', 'map', 'filter', 'zip', '__keys__', 'typeof', 'String', 'Number', 'next', 'RegExp'):
+            if e.id in ('len', 'iter', 'str', 'int', 'bool', 'list', 'tuple', 'isinstance', 'range', 'enumerate', 'min', 'max', 'any', 'all', 'type', 'set', 'Set', 'sorted', 'sum', 'Map', 'dict', 'Array', '__regex__', 'reversed', 'Boolean', 'map', 'filter', 'zip', '__keys__', 'typeof', 'String', 'Number', 'next', 'RegExp', 'float'):
                 return ('builtin', e.id)
             if e.id in getattr(self.port, 'modules', {}) or e.id in ('re', 'os', 'sys', 'math', 'ast', 'heapq', 'JSON', 'Math', 'Object', 'Buffer', 'csv_utils', 'rbql_engine', 'rbql'):
                 return ('global', e.id)
@@ -593,6 +593,8 @@ class Explorer(object):
         if isinstance(obj, tuple) and len(obj) == 3 and obj[0] == 'regex':
             return ('method', obj, name)
         if isinstance(obj, (_re.Pattern, _re.Match)):
+            return ('method', obj, name)
+        if isinstance(obj, float):
             return ('method', obj, name)
         if name == 'size' and isinstance(obj, dict) and 'size' not in obj:
             return len(obj)
@@ -951,10 +953,15 @@ class Explorer(object):
             return ('regex', args[0], args[1] if len(args) > 1 and isinstance(args[1], str) else '')
         if name == 'str' and len(args) == 1 and isinstance(args[0], (int, str)) and not isinstance(args[0], bool):
             return str(args[0])
-        if name == 'int' and len(args) == 1 and isinstance(args[0], (int, str)) and not isinstance(args[0], bool):
+        if name == 'int' and len(args) == 1 and isinstance(args[0], (int, str, float)) and not isinstance(args[0], bool):
             try:
                 return int(args[0])
-            except ValueError:
+            except (ValueError, OverflowError):
+                raise Raised(Abs('ValueError'), node)
+        if name == 'float' and len(args) == 1 and isinstance(args[0], (int, str, float)) and not isinstance(args[0], bool):
+            try:
+                return float(args[0])
+            except (ValueError, OverflowError):
                 raise Raised(Abs('ValueError'), node)
         if name == 'bool' and len(args) == 1:
             return self.truth(args[0], node)
@@ -1080,6 +1087,8 @@ class Explorer(object):
             if not isinstance(fl_, int):
                 raise Undecided('regex flags {!r}'.format(fl_), node)
             return getattr(_re, m)(args[0], args[1], flags=fl_) if m != 'split' else _re.split(args[0], args[1], flags=fl_)
+        if isinstance(recv, float) and m == 'is_integer' and not args:
+            return recv.is_integer()
         if isinstance(recv, list):
             if m in ('append', 'push') and len(args) == 1:
                 recv.append(args[0])
